@@ -26,8 +26,35 @@ func (c *Ctx) reportLockAccesses(rule string, la *lockset.Analysis, pkg, owner, 
 	}
 	accs := la.FieldAccesses(prog.Abs(pkg), owner, field)
 	idx := map[string]int{}
+	// blame: an access inside an unexported helper that has exactly one calling function is identified by that
+	// caller (transitively), so that moving code into or out of such a helper does not change which finding it is
+	pkgFns := c.P.FuncsIn(pkg)
+	var blame func(f *ssa.Function, depth int) *ssa.Function
+	blame = func(f *ssa.Function, depth int) *ssa.Function {
+		if f == nil || depth > 4 || f.Parent() != nil || f.Object() == nil || f.Object().Exported() {
+			return f
+		}
+		callers := map[*ssa.Function]bool{}
+		for _, st := range callSitesOf(f, pkgFns) {
+			top := st.Parent()
+			for top.Parent() != nil {
+				top = top.Parent()
+			}
+			callers[top] = true
+		}
+		if len(callers) != 1 {
+			return f
+		}
+		for g := range callers {
+			if g == f {
+				return f
+			}
+			return blame(g, depth+1)
+		}
+		return f
+	}
 	for _, a := range accs {
-		base := fmt.Sprintf("%s: %s.%s %s", fname(a.Fn), owner, field, a.Kind)
+		base := fmt.Sprintf("%s: %s.%s %s", fname(blame(a.Fn, 0)), owner, field, a.Kind)
 		idx[base]++
 		key := fmt.Sprintf("%s#%d", base, idx[base])
 		if a.Addr != nil && localFresh(a.Addr.X) {
